@@ -43,7 +43,65 @@ def h_cfg(T, M, I):
     return Harness("arr_cfg_%s%d_%s" % (T, M, I), [("const void *", 'owning')], body, out=("std::size_t", 2), meta={"T": T, "M": M, "kind": "cfg"})
 
 
+def h_extent_ctor(N, T, M, I="std::size_t"):
+    args = [("std::size_t", ('s', k)) for k in range(N)]
+    body = """  using B = strided<verif::vd<%s, %d>, array<verif::vd<%s, %d>>>;
+  B::owning_data_t o(B::configuration_t{%s});
+  out[0] = o.get_backend().get_configuration()[0];
+  %s
+  out[%d] = reinterpret_cast<std::size_t>(o.get_backend().m_ptr.get());
+""" % (I, N, T, M, ", ".join("a%d" % k for k in range(N)), " ".join("out[%d] = o.get_configuration()[%d];" % (1 + k, k) for k in range(N)), N + 1)
+    return Harness("strided_extent_ctor_%d_%s%d" % (N, T, M), args, body, out=("std::size_t", N + 2), meta={"N": N, "T": T, "M": M, "kind": "extent-ctor"})
+
+
+def run_extent_ctor(rep, tier):
+    hs = [h_extent_ctor(N, T, M) for (N, T, M) in ((1, "float", 1), (2, "float", 3), (3, "double", 2)) + (((4, "float", 2),) if tier == "thorough" else ())]
+    harness.build(hs, "c01ext")
+    for h in hs:
+        N, T, M = h.meta["N"], h.meta["T"], h.meta["M"]
+        inst = "strided<%d,%s^%d>(extents)" % (N, T, M)
+        if h.error:
+            loc, msg = harness.first_error(h)
+            rep.fail("C01.b-ctor", inst, loc, "does not compile: " + msg)
+            continue
+        s = ir.Sym(h.func)
+        outs = {k: ir.ungate(v) for k, v in s.outputs(h.out_index).items()}
+        sizes = [('arg', k) for k in range(N)]
+        why = None
+        for k in range(N):
+            if outs.get(8 * (1 + k)) != sizes[k]:
+                why = "extent %d reported is %s" % (k, ir.show(outs.get(8 * (1 + k)))[:60])
+        if why is None:
+            ok, w2 = relayout.count_form(outs.get(0, ('undef',)), "strided", N, sizes)
+            if not ok:
+                why = "storage " + w2
+        if why is None:
+            news = [c for c in s.calls if c.name == "_Znam"]
+            stride = M * (4 if T == "float" else 8)
+            cnt = None
+            if len(news) == 1:
+                for x in c05.subterms(news[0].args[0]):
+                    if x[0] == 'call' and x[1] and x[1].startswith("llvm.umul.with.overflow") and x[4] == ('ci', stride, 64):
+                        cnt = x[3]
+                    elif x[0] == 'op' and x[1] == 'mul' and x[4] == ('ci', stride, 64) and cnt is None:
+                        cnt = x[3]
+                    elif x[0] == 'op' and x[1] == 'shl' and x[4][0] == 'ci' and (1 << x[4][1]) == stride and cnt is None:
+                        cnt = x[3]
+            if cnt is None:
+                why = "no single buffer allocation of (element count) x %d bytes" % stride
+            else:
+                ok, w2 = relayout.count_form(cnt, "strided", N, sizes)
+                if not ok:
+                    why = "allocated buffer: " + w2
+        if why:
+            rep.fail("C01.b-ctor", inst, "lib/core/covfie/core/backend/transformer/strided.hpp", why)
+        else:
+            rep.ok("C01.b-ctor", inst)
+    return hs
+
+
 def declare(rep):
+    rep.rule("C01.b-ctor", "strided field built from an extent vector: storage and buffer hold exactly the product of all extents; extents reported unchanged", floor=3)
     rep.rule("C01.d", "array backend: view mirrors the owning buffer/count; at(i) == &m_ptr[i] with stride sizeof(vector); owning_data_t(n) allocates and records n elements", floor=6)
 
 
@@ -133,6 +191,7 @@ def run(rep, tier):
     c05.run_conversions(rep, tier)
     c17.declare(rep)
     c17.run(rep, tier)
+    run_extent_ctor(rep, tier)
     return run_array(rep, tier)
 
 
